@@ -2325,7 +2325,13 @@ def check_asdict(timeout):
 
 
 # ------------------------------------------------------------------------------------------------
-TASKS = ["init", "getattr", "setattr", "mutation", "callsites", "raw", "from_fields", "copy", "to_bytes", "from_buffer", "pickle", "dict_eq", "eq", "asdict"]
+def check_markers(timeout):
+    """frame of the integer-width side channel ('i32' / 'i32list' keys) over the Python code base: contracts/c10_markerframe.py"""
+    from . import c10_markerframe
+    return c10_markerframe.check(None, timeout)
+
+
+TASKS = ["init", "getattr", "setattr", "mutation", "callsites", "raw", "from_fields", "copy", "to_bytes", "from_buffer", "pickle", "dict_eq", "eq", "asdict", "markers"]
 FUNCTIONS = ["ThriftObject.__init__", "ThriftObject.__getattr__", "ThriftObject.__setattr__", "ThriftObject.__delattr__", "ThriftObject.__setitem__",
              "ThriftObject.__getitem__", "ThriftObject.__delitem__", "ThriftObject.get", "ThriftObject.to_bytes", "ThriftObject.__reduce_ex__",
              "ThriftObject.thrift_name", "ThriftObject.contents", "ThriftObject.copy", "ThriftObject.__copy__", "ThriftObject.__deepcopy__",
